@@ -25,4 +25,5 @@ BoundedT             == obs.okbound
 BoundedProgress      == stall  < C.stallbound
 BoundedProgressSink  == stall3 < C.stallbound
 BoundedDelivery      == stall2 < C.stallbound
+BoundedLiveness     == BoundedProgress /\ BoundedProgressSink /\ BoundedDelivery
 =============================================================================
